@@ -4,11 +4,15 @@
 mod api;
 mod c01;
 mod c08;
+mod csvfuzz;
 mod l1;
 mod oracle;
 mod record;
 mod replay;
+mod replay_csv;
+mod replay_gen;
 mod replay_str;
+mod session;
 mod universe;
 mod util;
 
@@ -24,6 +28,8 @@ fn main() {
         "record" => record::main(rest),
         "c08sweep" => c08::main(rest),
         "c01sweep" => c01::main(rest),
+        "session" => session::main(rest),
+        "csvfuzz" => csvfuzz::main(rest),
         "universe" => universe::main(rest),
         "version" => println!("{:?} {:?}", precis_core::UNICODE_VERSION, precis_profiles::UNICODE_VERSION),
         other => util::tool_error(&format!("unknown subcommand {}", other)),
